@@ -350,6 +350,10 @@ impl Litep2p {
             let handle = transport_manager.transport_handle(Arc::clone(&litep2p_config.executor));
             let (transport, transport_listen_addresses) =
                 <TcpTransport as TransportBuilder>::new(handle, config, resolver.clone())?;
+            #[cfg(litep2p_verif)]
+            if crate::verif::config_notes_enabled() {
+                crate::verif::note_config(local_peer_id, "tcp", transport.verif_config());
+            }
 
             for address in transport_listen_addresses {
                 transport_manager.register_listen_address(address.clone());
